@@ -9,6 +9,7 @@ KMem == [m \in {"A", "G1", "G2", "G3"} |-> CASE m = "A" -> {"p"} [] m = "G1" -> 
 N2 == {"A", "B"}
 N3 == {"A", "B", "C"}
 KAct == [m \in {"A", "B", "C"} |-> CASE m = "A" -> {"p"} [] m = "B" -> {"p", "q"} [] OTHER -> {}]
+KAct0 == [m \in {"A", "B", "C"} |-> CASE m = "A" -> {"p"} [] OTHER -> {}]
 NoGhosts == {}
 KP == {"p"}
 KPQ == {"p", "q"}
